@@ -69,6 +69,8 @@ def canon_node(d):
 
 def dump_live(s):
     """Structural dump of a live stepper object tree."""
+    if s is None:
+        return None
     name = type(s).__name__
     out = {'cls': SCLASS[name]}
     if name == '_FunctionStepper':
@@ -378,6 +380,11 @@ def drive(proc, loop, plan, media, with_stepper, resume=None):
                 proc.resume()
             else:
                 proc.resume(K._untuple(v[0]))
+        st = proc._state
+        if (proc.state == plumpy.ProcessState.WAITING and not st._waiting_future.done() and not loop._ready
+                and not loop._scheduled):
+            r.failure = ['stuck', k]        # nothing will ever wake this wait up: the process would hang
+            break
         loop.run_until_complete(proc.step())
         k += 1
     r.proc, r.loop = proc, loop
